@@ -66,6 +66,10 @@ SPEC = dict(
           "snaps, the requests driver also issues snapstate.UpdateMany without names, general and with Flags.IsAutoRefresh (every "
           "installed snap has an update in the fake store): the snaps it goes on with must be exactly the candidates not reported "
           "by HeldSnaps at that level just before (monitor) and equal the model's refresh_targets. "
+          "System-wide hold: the holds driver sets core refresh.hold (unset / forever / a time) through a config transaction and asks "
+          "the real SnapHolds (package clock; around the end of the hold to the nanosecond) and the real autoRefresh.isRefreshHeld "
+          "(the gate of the scheduler; it reads the REAL clock, so only hold times far in the past or 100 years ahead are used with it), "
+          "44 histories in the quick tier. "
           "hooks driver (overlord/hookstate, gateAutoRefreshHookSuite fixtures, clock set through an overlay-only export shim): real runs "
           "of snap-a's gate-auto-refresh hook through the HookManager, the hook body being a script of real `snapctl refresh --hold` / "
           "`--proceed` commands (ctlcmd.Run) that exits 0 or non-zero, so the real Done/Error fallbacks run; fixed part: hold, 24 h, hold, "
@@ -100,6 +104,10 @@ SPEC = dict(
         "or say nothing (C15_hook_hold_is_one_hold, C15_hook_hold_keeps_episode) and refuted for hooks that issue a further snapctl command "
         "after a refused --hold (C15_hook_rehold_refuted); across hook runs a refused hold ends the episode (the property's wording), so a "
         "gating snap whose hold was refused can hold again at the next hook run if the snap was not refreshed in between",
+        "system-wide hold: autoRefresh.Ensure itself (timer, metered connection, launchAutoRefresh) is not run; its gate isRefreshHeld is "
+        "called directly and compares with time.Now(), not the package clock; the real AutoRefresh with gating through the task runner "
+        "(phase 1 -> gate-auto-refresh hooks -> conditional-auto-refresh -> phase 2) is not driven end to end: its pieces are "
+        "(hook runs, snapsToRefresh, UpdateMany with IsAutoRefresh, HoldRefresh/ProceedWithRefresh)",
         "an accepted refresh request drops the hold records when its tasks are created, not when the refresh has happened; a refresh change "
         "that later fails or is undone does not restore them (no undo touches snaps-hold), so the gating snap can start a new episode although "
         "the snap was not refreshed: by the property's wording the episode ended with the accepted request; the 90 d bound is unaffected",
